@@ -327,6 +327,14 @@ def de_rules(ctx, flavours):
             continue
         pv, cfg = F.prov(vs), F.cfg(vs)
         closures = [b for q, b in F.bodies.items() if q.startswith(vs['q'] + '::{closure')]
+        # DE0: visit_seq is the reader's only way in -- the clauses below are about it.  Another `visit_*` of the same visitor
+        # (reached through deserialize_any / deserialize_map) is an entry point none of them looks at.
+        vim = [im for im in F.impls if im['trait'] == 'serde::de::Visitor' and im['self_q'].startswith(fl + '::')]
+        extra_v = sorted(i.split('::')[-1] for im in vim for i in im['items'] if i.split('::')[-1].startswith('visit_') and i.split('::')[-1] != 'visit_seq')
+        drv = [callee_name(t).split('::')[-1] for bi, t in calls_in(de) if callee_name(t).split('::')[-1].startswith('deserialize_')]
+        ok0 = not extra_v and bool(drv) and all(d in ('deserialize_seq', 'deserialize_tuple', 'deserialize_tuple_struct') for d in drv)
+        out.append(Obl('DE0', de['q'], de['span'], 'the document is read as a sequence through visit_seq only', ok0,
+                       'ok (%s)' % ', '.join(drv) if ok0 else 'further visitor entry points %s / driver calls %s are not covered by the reader rules' % (extra_v, drv)))
         # DE1
         why = []
         conn = [(bi, t) for bi, t in calls_in(vs) if t.get('local') and t['res'] in (fl + '::node::Node::connect', fl + '::node::Node::try_connect')]
